@@ -56,6 +56,8 @@ func runOracles(res *Result, prop string, c *Case) {
 		oracleC01(res, c)
 	case "C08":
 		oracleC08(res, c)
+	case "C02":
+		oracleC02(res, c)
 	}
 }
 
@@ -240,6 +242,72 @@ func oracleC08(res *Result, c *Case) {
 			if ok1 && a && (!ok2 || !b) {
 				res.fail(c, "C08.monotone", fmt.Sprintf("Is(cause, ref %d) holds but Is(wrapper, ref) = %v (ok=%v)", i, b, ok2), "C08:monotone")
 			}
+		}
+	}
+}
+
+// ---------------------------------------------------------------------
+// C02: identity is invariant under transfer.
+
+func hasOp(r *R, op string) bool {
+	if r == nil {
+		return false
+	}
+	if r.Op == op {
+		return true
+	}
+	for _, k := range r.K {
+		if hasOp(k, op) {
+			return true
+		}
+	}
+	return false
+}
+
+func isRes(e, r error) string {
+	var b bool
+	ok, _ := catch(func() { b = errors.Is(e, r) })
+	if !ok {
+		return "panic"
+	}
+	if b {
+		return "true"
+	}
+	return "false"
+}
+
+func oracleC02(res *Result, c *Case) {
+	e := c.Err
+	h1, ok1 := hopsReal(e, 1)
+	h3, ok3 := hopsReal(e, 3)
+	if !ok1 || !ok3 {
+		res.fail(c, "C02.no_panic", "a hop panicked", "C02:hop-panic")
+		return
+	}
+	errnoInE := hasOp(c.Rec, "errno")
+	for i, r := range c.Refs {
+		a0 := isRes(e, r)
+		res.OracleEvals["C02.e_transferred"]++
+		if a1 := isRes(h1, r); a1 != a0 {
+			res.fail(c, "C02.e_transferred", fmt.Sprintf("ref %d: Is(e,r)=%s Is(hop e,r)=%s", i, a0, a1), "C02:e-1hop:"+a0+"->"+a1)
+		}
+		if a3 := isRes(h3, r); a3 != a0 {
+			res.fail(c, "C02.e_transferred", fmt.Sprintf("ref %d: Is(e,r)=%s Is(hop^3 e,r)=%s", i, a0, a3), "C02:e-3hops:"+a0+"->"+a3)
+		}
+		rh, okr := hopsReal(r, 1)
+		if !okr {
+			res.fail(c, "C02.no_panic", "hop of the reference panicked", "C02:hop-panic")
+			continue
+		}
+		// the stated exception: the local match depended on an Is method comparing object identity
+		exception := errnoInE && i < len(c.RefRecs) && c.RefRecs[i] != nil && c.RefRecs[i].Op == "sentinel"
+		res.OracleEvals["C02.both_transferred"]++
+		if b := isRes(h1, rh); b != a0 && !exception {
+			res.fail(c, "C02.both_transferred", fmt.Sprintf("ref %d: Is(e,r)=%s Is(hop e,hop r)=%s", i, a0, b), "C02:both:"+a0+"->"+b)
+		}
+		res.OracleEvals["C02.ref_transferred"]++
+		if b := isRes(e, rh); b != a0 && !exception {
+			res.fail(c, "C02.ref_transferred", fmt.Sprintf("ref %d: Is(e,r)=%s Is(e,hop r)=%s", i, a0, b), "C02:ref:"+a0+"->"+b)
 		}
 	}
 }
